@@ -139,8 +139,8 @@ Theorem C10_disconnect_is_visits : forall cfg t0 evs c id,
 Proof. exact (fun cfg t0 evs c id => disconnect_is_visits cfg (after cfg t0 evs) c id (after_inv cfg t0 evs)). Qed.
 Print Assumptions C10_disconnect_is_visits.
 
-(* closed ids are never re-inserted: in ANY interleaving of loop iterations (of any connections) and removals, a
-   stream removed at some point is not in the table at the end — no disconnect handling resurrects it *)
+(* closed ids are never re-inserted, as long as loop iterations are atomic: in ANY interleaving of whole loop
+   iterations (of any connections) and removals, a stream removed at some point is not in the table at the end *)
 Theorem C10_closed_never_reinserted : forall cfg nw ms1 ms2 t id,
   lookup id (micro_run cfg nw t (ms1 ++ MRemove id :: ms2)) = None.
 Proof. exact closed_never_reinserted. Qed.
@@ -153,6 +153,20 @@ Theorem C10_racing_disconnect_outcome : forall cfg nw c ks1 ks2 id t k, NoDup (k
   lookup k (micro_run cfg nw (remove id t) (map (MVisit c) (ks1 ++ ks2))).
 Proof. exact racing_disconnect_outcome. Qed.
 Print Assumptions C10_racing_disconnect_outcome.
+
+(* REFUTED for the loop as it is written: the iteration is not atomic — the entry is re-read ([M2Read]) and written
+   back ([M2Write]) in two steps, and a removal of that very entry in between is undone by the write-back: a closed
+   stream is in the table again, lingering.  (Open finding closed-stream-relingered-in-reread-window; the harness
+   schedules this window on the real daemon and the correspondence model reproduces it.) *)
+Theorem C10_closed_reinserted_in_reread_window_refuted :
+  exists cfg nw ms1 ms2 t id,
+    lookup id (micro2_run cfg nw t (ms1 ++ M2Remove id :: ms2)) <> None.
+Proof.
+  exists default_config, 1005, [M2Read 0 0], [M2Write 0 0],
+         (tbl (after default_config 1000 [Open 0 [Yield 7; Yield 8]])), 0.
+  vm_compute. discriminate.
+Qed.
+Print Assumptions C10_closed_reinserted_in_reread_window_refuted.
 
 (* the loop iteration of the source has the shape [MVisit] assumes: it re-reads each entry it writes back *)
 Theorem C10_disconnect_rereads_entries : gen_disconnect_rereads = true.
@@ -314,3 +328,9 @@ Example C10_nonvacuous_racing_disconnect :
   map fst (micro_run default_config 1000 t [MVisit 0 0; MRemove 2; MVisit 0 1; MVisit 0 2]) = [0; 1] /\
   map (fun kv => owner (snd kv)) (micro_run default_config 1000 t [MVisit 0 0; MRemove 2; MVisit 0 1; MVisit 0 2]) = [None; None].
 Proof. vm_compute. auto. Qed.
+
+Example C10_nonvacuous_split_iteration_without_race :
+  let t := tbl (after default_config 1000 [Open 0 [Yield 7; Yield 8]; Open 1 [Yield 1]]) in
+  map (fun kv => (fst kv, owner (snd kv)))
+      (micro2_run default_config 1005 t [M2Read 0 0; M2Write 0 0; M2Read 0 1; M2Write 0 1; M2Remove 0]) = [(1, Some 1)].
+Proof. vm_compute. reflexivity. Qed.
